@@ -78,6 +78,13 @@ def constant(ev, dotted):
 
 def ext_getattr(ev, obj: ExtV, name, fr, node):
     d = obj.dotted
+    if d.startswith("ufunc:"):
+        if name == "nout":
+            return Num(int(d.split(":")[3]))
+        if name == "nin":
+            return Num(int(d.split(":")[2]))
+        if name == "__name__":
+            return StrV(d.split(":")[1])
     if d.startswith("pulsarbat"):
         tgt = ev.prog.lookup(d + "." + name)
         if tgt is not None:
@@ -1542,6 +1549,9 @@ def h_zeros(ev, args, kwargs, fr, node, fill=0):
 
 def h_array(ev, args, kwargs, fr, node):
     x = args[0]
+    dt = kwargs.get("dtype", args[1] if len(args) > 1 else NONE)
+    if isinstance(x, Num) and not isinstance(dt, NoneV) and x.kind in ("array",):
+        return x.like(x.expr, dtype=dt)
     if isinstance(x, (Num, NdArr)):
         if isinstance(x, Num) and x.kind in ("number",):
             return x.like(x.expr, kind="array", shape=x.shape if x.shape is not None else ())
@@ -1954,6 +1964,22 @@ EXC_NAMES = {"ValueError", "TypeError", "IndexError", "KeyError", "AttributeErro
 def call_ext(ev, fn: ExtV, args, kwargs, fr, node):
     d = fn.dotted
     ev.__dict__.setdefault("api_used", set()).add(d)
+    if d.startswith("ufunc:"):
+        _, name, nin, nout = d.split(":")
+        ev.trace.append(("ufunc-call", name, list(args), dict(kwargs), node))
+        outs = kwargs.get("out")
+        res = []
+        for k in range(int(nout)):
+            given = outs.items[k] if isinstance(outs, TupleV) and k < len(outs.items) else NONE
+            if not isinstance(given, NoneV):
+                res.append(given)       # numpy returns the given out array itself
+            else:
+                exprs = [a.expr if isinstance(a, Num) else sp.Symbol("arg_" + type(a).__name__) for a in args]
+                res.append(Num(sp.Function(f"Ufunc_{name}_{k}")(*exprs), kind="array", tag="data",
+                               shape=next((a.shape for a in args if isinstance(a, Num) and a.shape), None),
+                               dtype=next((a.dtype for a in args if isinstance(a, Num) and a.dtype is not None), None),
+                               backend=next((a.backend for a in args if isinstance(a, Num) and a.backend), None)))
+        return res[0] if int(nout) == 1 else TupleV(res)
     if d in EXT:
         return EXT[d](ev, args, kwargs, fr, node)
     if d.startswith("numpy.") and d.split(".")[-1] in NUMERIC_DTYPES:
